@@ -43,6 +43,7 @@ def check(run, repo, tier):
   V(run, repo, r3_row_creation)
   V(run, repo, r4_auto_remove)
   V(run, repo, r5_fixpoint)
+  H.finish_views(run, repo)
 
 
 def _ctx_of(w):
@@ -244,16 +245,25 @@ def _coltype_bindings(w):
   return out
 
 
+def _sole_return_value(w, fi):
+  """Value expression (locals inlined) of a function with exactly one way of returning."""
+  fn = w.fn_of(fi)
+  cases = [c for c in H.return_cases(fn.node)]
+  if len(cases) != 1 or cases[0].value is None:
+    return None
+  return H.inline(H.Flow(fn), cases[0].value)
+
+
 def _typename(w, ut_class):
   ci = w.repo.cls("usertypes." + ut_class)
   for c in w.repo.mro(ci):
     m = c.methods.get("typename")
     if m is None:
       continue
-    rets = H.returns_of(m.node)
-    if len(rets) == 1 and isinstance(rets[0].value, ast.Constant):
-      return rets[0].value.value
-    if len(rets) == 1 and text(rets[0].value) == "cls.__name__":
+    vals = _sole_return_value(w, m)
+    if vals is not None and isinstance(vals, ast.Constant):
+      return vals.value
+    if vals is not None and text(vals) == "cls.__name__":
       return ut_class
     raise AnalysisError("usertypes.%s.typename: unrecognised body" % c.name)
   raise AnalysisError("usertypes.%s has no typename" % ut_class)
@@ -284,8 +294,8 @@ def _usertype_of_string(w, k):
   for c in w.repo.module("usertypes").classes.values():
     m = c.methods.get("typename")
     if m is not None:
-      rets = H.returns_of(m.node)
-      if len(rets) == 1 and isinstance(rets[0].value, ast.Constant) and rets[0].value.value == k:
+      v = _sole_return_value(w, m)
+      if v is not None and isinstance(v, ast.Constant) and v.value == k:
         return c
   return None
 
@@ -347,7 +357,7 @@ def r2_listlike(run, w):
   for case in H.return_cases(sg.node):
     if case.value is None:
       continue
-    v = sgflow.du.inline(case.value)
+    v = H.inline(sgflow, case.value)
     eqs = []
     for (t, pol) in case.atoms:
       if isinstance(t, ast.Compare) and len(t.ops) == 1 and \
